@@ -794,7 +794,8 @@ PROPS = {
              "reset): the other side's connection must end within 3 s."
              " Live HTTP/3 part (suite c02h3, wall clock): the same tunnels (13 quick, 44 thorough) through the real Core::listen on a "
              "loopback UDP port - QUIC multiplexer, HTTP/3 codec, Tunnel, direct forwarder - driven by a quiche client of the harness with "
-             "flow-control windows of 1 MiB and 8 KiB, including clients that end their stream while the origin still sends; and 4 failing "
+             "flow-control windows of 1 MiB and 8 KiB, including clients that end their stream while the origin still sends and origins that end "
+             "theirs while the client still uploads; and 4 failing "
              "tunnels (the client resets its stream / the origin aborts with a TCP reset, the other direction idle or transferring): "
              "the other side must see its connection end within 3 s and hold nothing but a prefix of what was sent; three sessions with four "
              "concurrent requests ended in different ways; at the end every operation each HTTP/3 codec performed on its stream table "
@@ -830,7 +831,8 @@ PROPS = {
              "H/2) stay connected past 2H and are served a health check; two HTTP/3 sessions on the reverse-proxy host (session timeout 700 ms), "
              "one whose stream completes and one whose stream fails, must be closed by the endpoint within the timeout + 4 s."
              " QUIC timers (suite c14qt): 3 (thorough 8) rounds of three overlapping HTTP/3 sessions with idle timeouts of 0.4 s, 0.9 s "
-             "and 30 s (one vanishes silently, one closes, one idles on) on the real QUIC listener; the door records every operation on "
+             "and 1.1 s (one vanishes silently, one closes, one idles on) and two abandoned handshakes on the real QUIC listener (endpoint idle "
+             "timeout 1.2 s; at the end the connection table and the deadlines must be empty within 9 s); the door records every operation on "
              "the multiplexer's deadline table (arm, remove, loop iteration with what expired and what quiche asked to re-arm) and the "
              "state it left; the Lean model TT.QuicTimers replays the operations and must reach the same deadline table and "
              "closest_deadline after each one; the two invariants are also checked directly on the recorded states",
@@ -887,7 +889,8 @@ PROPS = {
              " Live part (suite c09live, no model): about 8500 (thorough 34000) datagrams to the real QUIC listener - every short and "
              "sampled longer prefix of a real client's Initial packets, single- and multi-byte mutations of their header region, "
              "hand-made long headers (7 versions incl. unsupported ones, all 4 types, connection-id lengths up to 255, token and length "
-             "varints beyond the datagram), short headers with unknown ids, random datagrams - and 180 (720) TCP connections with "
+             "varints beyond the datagram), short headers with unknown ids, random datagrams, the address-validation token of a real second "
+             "Initial cut to every length / extended / altered under fresh connection ids - and 180 (720) TCP connections with "
              "garbage, truncated, mutated or over-long first records, half of them abandoned; after every batch a fresh HTTP/3 session "
              "and a fresh TLS connection must still be served (a panic in a listener task would end Core::listen)",
         explanation="theorems udp_stream_no_panic, udp_step_safe, icmp_request_decoder_safe, ip_header_skipping_safe, icmp_packets_safe, "
@@ -1062,7 +1065,7 @@ PROPS = {
              "executed on the real Shutdown with futures polled by hand (noop waker), plus 2000 (20000) random histories of length "
              "8-20; live sessions: 1 and 3 idle HTTP/1.1 connections / HTTP/2 sessions with an open stream through the real Tunnel::listen "
              "under the paused clock: they must stay up before the submission, wind down after it, and completion() must return; and one "
-             "idle participant of every kind (tunnel h1/h2, ping h1/h2, speedtest h1/h2, reverse proxy h1, the metrics listener, none) "
+             "idle participant of every kind (the listeners = Core::listen itself, tunnel h1/h2, ping h1/h2, speedtest h1/h2, reverse proxy h1, the metrics listener, none) "
              "through its real handler: completion() must stay pending while it is alive, it must wind down on submit, and completion() "
              "must then return."
              " Live (suite c19live, wall clock): 2 (thorough 6) rounds on the real Core::listen (TCP + QUIC) with 1-3 HTTP/3 sessions "
